@@ -140,13 +140,13 @@ class NpMixin:
 
     def array_binop(self, op, a, b, st, n):
         # only the forms used inside kernels: (slice view of a mask) & CONST ; (...) == 0
-        if isinstance(a, tuple) and a and a[0] in ("sview", "smap"):
+        if isinstance(a, tuple) and a and isinstance(a[0], str) and a[0] in ("sview", "smap"):
             return ("smap", a, (op, b))
         raise Unsupported("array arithmetic (line %d)" % n.lineno)
 
     def e_BinOp(self, n, st):
         a = self.eval(n.left, st)
-        if isinstance(a, tuple) and a and a[0] in ("sview", "smap"):
+        if isinstance(a, tuple) and a and isinstance(a[0], str) and a[0] in ("sview", "smap"):
             from .expr import BINOPS
             b = self.eval(n.right, st)
             return ("smap", a, (BINOPS[type(n.op)], b))
@@ -155,7 +155,7 @@ class NpMixin:
     def e_Compare(self, n, st):
         if len(n.ops) == 1:
             a = self.eval(n.left, st)
-            if isinstance(a, tuple) and a and a[0] in ("sview", "smap"):
+            if isinstance(a, tuple) and a and isinstance(a[0], str) and a[0] in ("sview", "smap"):
                 from .expr import CMPOPS
                 b = self.eval(n.comparators[0], st)
                 return ("smap", a, (CMPOPS[type(n.ops[0])], b))
@@ -188,7 +188,7 @@ class NpMixin:
 
     def b_numpy_sum(self, args, kw, st, n):
         v = args[0]
-        if isinstance(v, tuple) and v and v[0] in ("sview", "smap"):
+        if isinstance(v, tuple) and v and isinstance(v[0], str) and v[0] in ("sview", "smap"):
             dims = self.sview_dims(v)
             # assumed contract of np.sum over a 1-D slice: uninterpreted S(fixed indices..., lo, hi) per (array, sliced
             # axis, element map) with S(.., lo, hi) = 0 if hi <= lo else S(.., lo, hi-1) + elem(hi-1)
@@ -313,7 +313,7 @@ class NpMixin:
         havoc_cell(st, arr, arr.name or "sl")
         after = st.heap[arr.cell]
         # value written at a cell of the region
-        if isinstance(v, tuple) and v and v[0] in ("sview", "smap"):
+        if isinstance(v, tuple) and v and isinstance(v[0], str) and v[0] in ("sview", "smap"):
             if not self.spec:
                 dv = self.sview_dims(v)
                 dt = [(ax[1], ax[2]) for ax in axes if ax[0] == "s"]
